@@ -601,6 +601,21 @@ def retry(ctx: Ctx) -> None:
         for s in ss
     )
     ctx.ob(f, f.node, wrapped_used and rebound, "the submitted callable is the retry-wrapped function", sel="retry:wrapped-submitted")
+    # the executor hands the user's `retries` option to the factory unmodified (0 = no retries)
+    ex = repo.get(f"{A.RT_LOCAL}.ThreadsExecutor._async_execute_dag")
+    efl, ecfg = flow_of(repo, ex), cfg_of(ex)
+    for c in repo.calls_to(ex, f.qual):
+        arg = c.args[2] if len(c.args) > 2 else kwarg(c, "retries")
+        ok = False
+        why = "retries not passed"
+        if arg is not None:
+            e = arg
+            if isinstance(arg, ast.Name):
+                ss = efl.rdefs(arg.id, ecfg.node_of(c))
+                e = ss[0].value if len(ss) == 1 and ss[0].value is not None else arg
+            ok = isinstance(e, ast.Call) and isinstance(e.func, ast.Attribute) and e.func.attr in ("pop", "get") and e.args and isinstance(e.args[0], ast.Constant) and e.args[0].value == "retries"
+            why = f"found `{unparse(e, 50)}`"
+        ctx.ob(ex, c, ok, "the `retries` option reaches the future factory unmodified (an explicit 0 means no retries)" + ("" if ok else f" — {why}: a falsy value is replaced, so a submission can make more than retries+1 attempts"), sel="retry:option-forwarded")
     p = repo.get(f"{A.RT_LOCAL}.processes_create_futures_func")
     loops = [n for n in ast.walk(p.node) if isinstance(n, (ast.While,))]
     rr = [c for c in ast.walk(p.node) if isinstance(c, ast.Call) and attr_chain(c.func) in ("Retrying", "tenacity.Retrying")]
